@@ -1970,6 +1970,8 @@ class Recipe:
         """
         if self.locked:
             raise RuntimeError("This recipe is locked.")
+        if self.current_stage == 'all':  # ('all' is the whole recipe, which start_stage refuses as a stage name)
+            raise ValueError("No stage has been started.")
         if self.current_stage != name:
             raise ValueError("Current stage does not match name.")
 
